@@ -16,7 +16,7 @@ LEVEL_TEXT = ("Every DeviceType member (read dynamically) is paired with every d
 RULE = ("all DeviceType members x the 4 device classes x 50 Hypothesis draws of the remaining constructor fields; all "
         "categories in both port tables; all pairs of types for code uniqueness. Non-trivial = every (type, class, "
         "fields) triple and every table row; distinct by that tuple."
-        ' Also: every table re-checked after a bridge heard all nine device families on private ports (tables-after-traffic); API objects of both types constructed first and connected later must arrive on the control port of their own type, and must fail rather than fall back when only the other port is open (api-dials-own-port).')
+        ' Also: every table re-checked after a bridge heard all nine device families on private ports and broadcasts sent from source ports 10002/10003/20002/20003 (tables-after-traffic); API objects of both types constructed first and connected later must arrive on the control port of their own type, and must fail rather than fall back when only the other port is open (api-dials-own-port).')
 ASSUMPTIONS = ["reference tables: category<->class, protocol type -> (UDP, TCP) ports, and the 9 model codes, transcribed from the README / statement and pinned to the shipped captures for the type-1 codes"]
 
 CLASS_CATEGORY = {
@@ -152,6 +152,20 @@ def body_after_traffic(rep, case):
                 for i, code in enumerate(refb.MODELS):
                     await rig.send(rig.ports[i % 2], refb.encode(valid_fields(code, f"{i + 1:06x}", case.get("seed", 0))))
                 await rig.barrier()
+                # devices with newer firmware send from (and to) 10002 / 10003: broadcasts whose SOURCE port is one of the
+                # four documented ports (sender bound on this process's private loopback address)
+                import socket
+                for sport in (10002, 10003, 20002, 20003):
+                    sx = socket.socket(socket.AF_INET, socket.SOCK_DGRAM)
+                    try:
+                        sx.bind((net.loopback_ip(), sport))
+                        for i, code in enumerate(refb.MODELS):
+                            sx.sendto(refb.encode(valid_fields(code, f"{0x700 + i:06x}", sport)), ("127.0.0.1", rig.ports[i % 2]))
+                    except OSError:
+                        pass
+                    finally:
+                        sx.close()
+                    await rig.barrier()
             except udptx.DeliveryStopped:
                 pass            # a deaf bridge is C07's business; here only the tables matter
             return len(rig.callbacks)
